@@ -35,6 +35,7 @@ from qiskit_addon_cutting.cutting_decomposition import partition_circuit_qubits,
 from qiskit_addon_cutting.instructions import CutWire
 from qiskit_addon_cutting.qpd import TwoQubitQPDGate, SingleQubitQPDGate, generate_qpd_weights, WeightType
 from qiskit_addon_cutting.utils.observable_grouping import ObservableCollection
+import qiskit_addon_cutting.cutting_experiments as CE
 
 from common import CaseWriter, Res, Raw, Qc, Interner, call_canon, coq, tagged, untag
 from circ import CircCtx, coq_circ, coq_benv
@@ -374,6 +375,22 @@ def run_desc(desc):
     for b in bases or []:
         ctx.basis_id(b)
     basis_handles = [ctx.basis_id(b) for b in (bases or [])]
+    # oracle-contract monitors: the harness' own collection of `bases` agrees with the package's helpers; the weights are
+    # positive floats keyed by tuples of the right length; ObservableCollection is deterministic (same groups when asked again)
+    contracts = {}
+    if bases is not None:
+        try:
+            if cin[0] == "single":
+                pk = CE._get_bases(circuits)[0]
+            else:
+                pk = CE._get_bases_by_partition(circuits, CE._get_mapping_ids_by_partition(circuits)[0])
+            contracts["bases_as_collected_by_package"] = len(pk) == len(bases) and all(a is b or a == b for a, b in zip(pk, bases))
+        except Exception:  # noqa: BLE001
+            contracts["bases_as_collected_by_package"] = False
+    if weights:
+        contracts["weights_positive_right_length"] = all(w[1] > 0 and len(w[0]) == len(bases) for w in weights)
+    if oin[0] == "dict":
+        contracts["groups_deterministic"] = all(canon_groups(v) == e[2] for (k, v), e in zip(observables.items(), oin[1]))
 
     # ---- canonical output ----
     side = True
@@ -431,7 +448,7 @@ def run_desc(desc):
     json_case = dict(kind="generate", desc=desc, gh=gh, gsx=gsx, circuits=cin, observables=oin, weights=weights,
                      bases=[dict(handle=h, coeffs=[float(c) for c in cenv[h]]) for h in basis_handles],
                      env=env, impl=impl, side_notes=side_notes, untouched=untouched, weights_call=wcall, exact=exact)
-    info = dict(result=r[0], nweights=len(weights), exact=exact, untouched=untouched, nbases=len(basis_handles))
+    info = dict(result=r[0], nweights=len(weights), exact=exact, untouched=untouched, nbases=len(basis_handles), contracts=contracts)
     return coq_case, json_case, info
 
 
@@ -534,7 +551,7 @@ def nmaps_of(items_or_bases):
 def pick_N(rng, nmaps, tier):
     pool = ["inf", [1, 1], [5, 2], [10, 1], [100, 1], [5000, 1], [2, 1], [4, 1], [64, 1]]
     prob = [0.16, 0.06, 0.1, 0.16, 0.14, 0.1, 0.06, 0.1, 0.12]
-    cap = 300 if tier == "quick" else 1500
+    cap = 300 if tier == "quick" else 1000
     while True:
         n = pool[int(rng.choice(len(pool), p=prob))]
         est = nmaps if n == "inf" else min(nmaps, math.ceil(n[0] / n[1]) + 1)
@@ -631,15 +648,17 @@ def emit(w, desc, stream):
     w.add(group, chk, coq_case, jc, nontrivial=(info["result"] == "ok" and info["nbases"] > 0) or stream == "malformed")
     w.count(stream + ".result", info["result"])
     w.contract("inputs_untouched", info["untouched"])
+    for name, ok in info["contracts"].items():
+        w.contract(name, ok)
     return jc, info
 
 
 def generate(rng, tier, outdir):
     w = CaseWriter(outdir, IMPORTS, CASE_TYPES)
     w.SHARD = 20          # smaller shards: the case literals are large, the shards are compiled in parallel
-    n_valid = 170 if tier == "quick" else 1500
-    n_mal = 70 if tier == "quick" else 500
-    work_cap = 700 if tier == "quick" else 4000
+    n_valid = 170 if tier == "quick" else 900
+    n_mal = 70 if tier == "quick" else 300
+    work_cap = 700 if tier == "quick" else 2500
 
     # ---- handwritten witnesses first: F2 class, both halves in one partition, identity restriction ----
     fixed = [
